@@ -48,6 +48,86 @@ def build_e2base(features=()):
     return (deps, rlibs[-1]), ""
 
 
+def build_e2base_nightly():
+    tdir = os.path.join(C.BUILD, "e2base-nightly")
+    env = dict(C.ENV_BASE, CARGO_TARGET_DIR=tdir)
+    t0 = time.time()
+    rc, out, err = _run(["cargo", "+nightly", "build", "--offline"], cwd=E2BASE, env=env)
+    C.log(f"[build] e2base (nightly): {'ok' if rc == 0 else 'FAILED'} in {time.time() - t0:.1f}s")
+    if rc != 0:
+        return None, err
+    deps = os.path.join(tdir, "debug", "deps")
+    rlibs = sorted(glob.glob(os.path.join(deps, "libgecs-*.rlib")), key=os.path.getmtime)
+    return (deps, rlibs[-1]), ""
+
+
+def strip_literals(text):
+    """Removes string/char literals and comments so that only code tokens are scanned."""
+    out, i, n = [], 0, len(text)
+    while i < n:
+        c = text[i]
+        if c == '"':
+            i += 1
+            while i < n and text[i] != '"':
+                i += 2 if text[i] == "\\" else 1
+            i += 1
+            out.append('""')
+        elif text.startswith("//", i):
+            while i < n and text[i] != "\n":
+                i += 1
+        elif text.startswith("/*", i):
+            j = text.find("*/", i + 2)
+            i = n if j < 0 else j + 2
+        else:
+            out.append(c)
+            i += 1
+    return "".join(out)
+
+
+def run_expansion_scan(mlib, seed, files, cases):
+    """rustc's own macro expansion of generated client programs must contain no `unsafe` token
+    (the unsafe_code lint does not look inside proc-macro output, so forbid() alone proves nothing)."""
+    import re
+    stats, finds, incon = {"expanded_programs": 0, "expanded_bytes": 0, "expanded_query_invocations": 0}, [], []
+    base, err = build_e2base_nightly()
+    if not base:
+        incon.append("nightly e2base build failed: " + err[-300:])
+        return stats, finds, incon
+    outdir = os.path.join(E2DIR, f"bare-{seed}")
+    shutil.rmtree(outdir, ignore_errors=True)
+    rc, out, err = _run([mlib, "bare", f"seed={seed}", f"out={outdir}", f"files={files}", f"cases={cases}"])
+    if rc != 0:
+        incon.append("bare emit failed: " + err[-300:])
+        return stats, finds, incon
+
+    def one(f):
+        src = os.path.join(outdir, f"bare_{f}.rs")
+        deps, rlib = base
+        cmd = ["rustc", "+nightly", "--edition", "2021", "--crate-type", "bin", "-Zunpretty=expanded", "-L", f"dependency={deps}", "--extern", f"gecs={rlib}", "--cap-lints", "allow", src]
+        rc, so, se = _run(cmd, timeout=900)
+        return src, rc, so, se
+
+    with cf.ThreadPoolExecutor(max_workers=C.NCPU) as ex:
+        for src, rc, so, se in ex.map(one, range(files)):
+            if rc != 0 or not so:
+                incon.append(f"expansion of {src} failed: {se[-300:]}")
+                continue
+            code = strip_literals(so)
+            stats["expanded_programs"] += 1
+            stats["expanded_bytes"] += len(code)
+            stats["expanded_query_invocations"] += code.count("type MatchedArchetype")
+            # rustc's own #[derive(Clone, Copy)] expands (on nightly) to an automatically derived
+            # `unsafe impl ::core::clone::TrivialClone`; that is the compiler's token, not gecs's
+            code = re.sub(r"unsafe impl(<[^>]*>)? ::core::clone::TrivialClone", "impl TrivialClone", code)
+            hits = [m.start() for m in re.finditer(r"\bunsafe\b", code)]
+            if hits:
+                ctx = code[max(0, hits[0] - 200):hits[0] + 120].replace("\n", " ")
+                finds.append(Finding(["C18"], "macro expansion contains `unsafe`", f"{src}: {len(hits)} occurrence(s), first: ...{ctx}...", {"kind": "expansion-scan", "src": src}))
+            if "MatchedArchetype" not in code:
+                incon.append(f"expansion of {src} contains no query expansion (scan would be vacuous)")
+    return stats, finds, incon
+
+
 def rustc(src, base, out=None, cfgs=(), metadata=True, timeout=600):
     deps, rlib = base
     cmd = ["rustc", "--edition", "2021", "--crate-type", "bin", "--error-format=json", "-L", f"dependency={deps}", "--extern", f"gecs={rlib}", "--cap-lints", "warn"]
